@@ -1065,7 +1065,7 @@ impl World {
         if kind == "grid" {
             // every (instruction, slot, variant) combination on this state: look-alike and the five forgeries
             let mut all = XHopOut { line: "rejected".to_string(), viols: vec![], tags: vec!["sub_grid"] };
-            for kd in ["swap", "liq", "dec"] {
+            for kd in ["swap", "liq", "dec", "liqt", "liq1", "dec1"] {
                 for slot in 0..15 {
                     for forge in 0..7 {
                         let sl = slot.to_string();
@@ -1167,8 +1167,38 @@ impl World {
                 tick_array_lower: ta_l,
                 tick_array_upper: ta_u,
             };
-            let m: Vec<Meta> = acc.to_account_metas(None).iter().map(Meta::from).collect();
-            let d = if kind == "dec" {
+            let m: Vec<Meta> = if kind == "liq1" || kind == "dec1" {
+                // the v1 instructions (Pinocchio handlers too): one token program, no mints, no memo
+                let acc1 = ::whirlpool::accounts::ModifyLiquidity {
+                    whirlpool: fx.pool,
+                    token_program: anchor_spl::token::ID,
+                    position_authority: fx.trader,
+                    position,
+                    position_token_account: ptoken,
+                    token_owner_account_a: fx.trader_a,
+                    token_owner_account_b: fx.trader_b,
+                    token_vault_a: fx.vault_a,
+                    token_vault_b: fx.vault_b,
+                    tick_array_lower: ta_l,
+                    tick_array_upper: ta_u,
+                };
+                acc1.to_account_metas(None).iter().map(Meta::from).collect()
+            } else {
+                acc.to_account_metas(None).iter().map(Meta::from).collect()
+            };
+            let d = if kind == "liq1" {
+                ::whirlpool::instruction::IncreaseLiquidity { liquidity_amount: 1000, token_max_a: u64::MAX, token_max_b: u64::MAX }.data()
+            } else if kind == "dec1" {
+                let l = p.liquidity.min(1000);
+                ::whirlpool::instruction::DecreaseLiquidity { liquidity_amount: l, token_min_a: 0, token_min_b: 0 }.data()
+            } else if kind == "liqt" {
+                // increase_liquidity_by_token_amounts_v2: same accounts, its own Pinocchio handler
+                ::whirlpool::instruction::IncreaseLiquidityByTokenAmountsV2 {
+                    method: ::whirlpool::instructions::IncreaseLiquidityMethod::ByTokenAmounts { token_max_a: 1_000_000, token_max_b: 1_000_000, min_sqrt_price: 0, max_sqrt_price: u128::MAX },
+                    remaining_accounts_info: None,
+                }
+                .data()
+            } else if kind == "dec" {
                 // a withdrawal: the tokens are moved by the pool's own signature, so the position authority is the only gate
                 let l = p.liquidity.min(1000);
                 ::whirlpool::instruction::DecreaseLiquidityV2 { liquidity_amount: l, token_min_a: 0, token_min_b: 0, remaining_accounts_info: None }.data()
